@@ -117,12 +117,20 @@ RecvStep(e) ==
                                               /\ N(f1, c) <= PP.k) THEN "credit.stats" ELSE "ok"]
 
 \* C07: the recommendation
+\* tv: the history itself -- SOO / DOO: the reward of the round in which the cell was handed out (NInf: never);
+\* StoSOO: <<sum, number>> of the rewards of the rounds in which the cell was handed out
+TvFresh == IF PP.algo = "StoSOO" THEN <<0, 0>> ELSE NInf
+HistMeanGeq(c, d) ==
+  LET nc == IF tv[c][2] = 0 THEN 1 ELSE tv[c][2]   nd == IF tv[d][2] = 0 THEN 1 ELSE tv[d][2] IN tv[c][1] * nd >= tv[d][1] * nc
+HistStoBest == LET L == SeqRange(T.layers[T.pdepth + 1]) IN {c \in L : c \in DOMAIN tv /\ \A d \in L : d \in DOMAIN tv => HistMeanGeq(c, d)}
 HistEvaluated == {c \in DOMAIN tv : tv[c] # NInf}
 HistBest == {c \in HistEvaluated : \A d \in HistEvaluated : tv[d] <= tv[c]}
 GlpStep(e) ==
   LET cs == SeqRange(e.cands) IN
   IF e.fc # <<>> THEN "rec.mutates"
-  ELSE IF PP.algo = "StoSOO" THEN (IF cs \cap RecStoSOO(T, f) = {} THEN "rec.not-best-mean-of-deepest-level" ELSE "ok")
+  ELSE IF PP.algo = "StoSOO" THEN (IF cs \cap RecStoSOO(T, f) = {} THEN "rec.not-best-mean-of-deepest-level"
+                                    \* the mean of the rewards the cell really received, should the recorded one have drifted from it (soft C04 clause)
+                                    ELSE IF cs \cap HistStoBest = {} THEN "rec.not-best-mean-of-history" ELSE "ok")
   ELSE IF Evaluated(T, f) = {} THEN "ok"
   ELSE IF cs \cap Evaluated(T, f) = {} THEN "rec.never-evaluated"
   ELSE IF cs \cap RecBestEvaluated(T, f) = {} THEN "rec.not-best"
@@ -143,14 +151,14 @@ Step ==
             /\ hc' = [c \in DOMAIN e.f |-> 0] /\ hw' = [c \in DOMAIN e.cells |-> e.cells[c].hw2]
             /\ err' = IF c0 # "ok" THEN c0
                       ELSE IF ~(Len(e.cells) = 1 /\ FreshCell(<<1>> \o e.f[1])) THEN "sweep.init" ELSE "ok"
-            /\ tv' = [c \in DOMAIN e.f |-> NInf]
+            /\ tv' = [c \in DOMAIN e.f |-> TvFresh]
             /\ UNCHANGED <<cur, nexp, asked>>
        [] e.k = "mk" ->
             LET r == MkStep(e) IN
             /\ T' = r.T /\ f' = r.f /\ cur' = r.cur /\ nexp' = r.nexp /\ err' = r.err /\ UNCHANGED <<ph, asked>>
             /\ hc' = (IF r.err = "ok" THEN hc \o [j \in DOMAIN e.new |-> 0] ELSE hc)
             /\ hw' = (IF r.err = "ok" THEN hw \o [j \in DOMAIN e.new |-> e.new[j].hw2] ELSE hw)
-            /\ tv' = (IF r.err = "ok" THEN tv \o [j \in DOMAIN e.new |-> NInf] ELSE tv)
+            /\ tv' = (IF r.err = "ok" THEN tv \o [j \in DOMAIN e.new |-> TvFresh] ELSE tv)
        [] e.k = "pull" ->
             LET c0 == CallFail(e) IN
             IF ph # "told" THEN err' = "protocol" /\ UNCHANGED <<T, f, hc, hw, tv, cur, nexp, ph, asked>>
@@ -167,7 +175,7 @@ Step ==
             ELSE LET r == RecvStep(e) IN
                  /\ f' = r.f /\ err' = "ok" /\ soft' = (IF soft = "ok" THEN r.err ELSE soft) /\ ph' = "told" /\ UNCHANGED <<T, hc, hw, cur, nexp, asked>>
                  \* the history itself: the reward belongs to the cell the preceding pull handed out, whatever was recorded
-                 /\ tv' = (IF asked # {} /\ (CHOOSE c \in asked : TRUE) \in DOMAIN tv THEN [tv EXCEPT ![CHOOSE c \in asked : TRUE] = e.r] ELSE tv)
+                 /\ tv' = (IF asked # {} /\ (CHOOSE c \in asked : TRUE) \in DOMAIN tv THEN [tv EXCEPT ![CHOOSE c \in asked : TRUE] = IF PP.algo = "StoSOO" THEN <<@[1] + e.r, @[2] + 1>> ELSE e.r] ELSE tv)
        [] e.k = "glp" ->
             LET c0 == CallFail(e) IN
             /\ err' = IF c0 # "ok" THEN c0 ELSE GlpStep(e)
